@@ -296,6 +296,26 @@ func ruleDUPLEX(c *Checker) {
 				"the ciphertext is sealed into an existing buffer: the pending record aliases memory that another path reads or writes")
 		}
 	}
+	// ... and the plaintext handed up by the read side is a fresh buffer as well: it is kept by the
+	// callers across calls (NoiseGrpcConn.nextMsg, bytes.Buffer), so it must not alias the ciphertext
+	// buffer, which is reused or pooled
+	for _, name := range []string{"ReadHeader", "ReadBody", "ReadMessage"} {
+		fn := w.Func("(*mailbox.Machine)." + name)
+		if fn == nil {
+			continue
+		}
+		n := 0
+		for _, ci := range findCalls(fn, func(ci ssa.CallInstruction) bool {
+			s := ci.Common().StaticCallee()
+			return s != nil && s.Name() == "Decrypt"
+		}) {
+			n++
+			a := ci.Common().Args
+			okk := len(a) >= 3 && isNilConst(a[2])
+			c.decide(okk, "DUPLEX", fmt.Sprintf("%s|decrypt-%d returns a fresh buffer", name, n), instrPos(ci), "the plaintext destination is nil: Open allocates",
+				"the record is decrypted into an existing buffer (in place or into shared storage): the plaintext that callers keep across calls is overwritten when that buffer is reused")
+		}
+	}
 	// NoiseGrpcConn: Read and Write touch disjoint fields of the connection, apart from the
 	// machine and the transport, which are only read
 	r := w.Func("(*mailbox.NoiseGrpcConn).Read")
@@ -338,5 +358,5 @@ func ruleDUPLEX(c *Checker) {
 		c.decide(len(bad) == 0, "DUPLEX", "NoiseGrpcConn|Read and Write do not write each other's fields", r.Pos(), "no field written by one method is used by the other",
 			"NoiseGrpcConn.Read and Write run concurrently (read lock only) but share written state: "+strings.Join(bad, ", "))
 	}
-	c.floor("DUPLEX", 4)
+	c.floor("DUPLEX", 6)
 }
